@@ -55,7 +55,9 @@ Pool == {
   U("point", "fk5", Sky, <<>>, NoAng, FALSE, "reg", [symbol |-> "*"]),
   U("text", "icrs", Sky, <<>>, NoAng, TRUE, "ann", [text |-> "Hello there"]),
   U("circle", "image", Pix, <<V("mpix", 4250)>>, NoAng, FALSE, "reg", [label |-> "p"]),
-  U("rectangle", "image", Pix, <<V("mpix", 6000), V("mpix", 2000)>>, V("mas", 108000000), TRUE, "reg", NoProps) }
+  U("rectangle", "image", Pix, <<V("mpix", 6000), V("mpix", 2000)>>, V("mas", 108000000), TRUE, "reg", NoProps),
+  U("ellipse", "image", Pix, <<V("mpix", 6000), V("mpix", 2000)>>, V("mas", 162000000), FALSE, "ann", NoProps),
+  U("circle", "fk5", Sky, <<V("mas", 3600000)>>, NoAng, FALSE, "ann", [label |-> "excluded annotation"]) }
 RadUnits(frame) == IF frame = "image" THEN {"pix", "deg"} ELSE {"deg", "arcmin", "arcsec"}
 
 VARIABLES file, lst, opts, out, pc
